@@ -283,9 +283,21 @@ def check_flag_conditioned_liveness(res, db, entry: str, allowed: set) -> int:
     for k, loc in e.reads.items():
       if k.startswith("Data."):
         reads.setdefault(k, []).append((i, e.ev.pc, loc, e))
+  # flag pairs that one host condition tests together (e.g. `SPRING and DAMPER` in passive()): assigned jointly
+  import itertools
+  import re as _re
+
+  pairs = set()
+  for e in effs:
+    for text, _pol in e.ev.pc:
+      ms = sorted(set(_re.findall(r"DisableBit\.(\w+)", text)))
+      for a_, b_ in itertools.combinations(ms, 2):
+        pairs.add((a_, b_))
+  assignments = [(f, v, None) for f, v in flags] + [("DisableBit." + a_, True, {"DisableBit." + b_: True}) for a_, b_ in sorted(pairs)]
   n = 0
-  for flag, val in flags:
-    env = FlagEnv(flag, val)
+  for flag, val, more in assignments:
+    env = FlagEnv(flag, val, more)
+    label = flag if not more else flag + "+" + "+".join(sorted(more))
     memo = {}
 
     def dead(pc):
@@ -321,7 +333,7 @@ def check_flag_conditioned_liveness(res, db, entry: str, allowed: set) -> int:
                     cands.append(a_)
           for a_ in cands[:8]:
             for v_ in (True, False):
-              env2 = FlagEnv(flag, val)
+              env2 = FlagEnv(flag, val, more)
               env2.atoms = {a_: v_}
               if env2.pc_host(pc) is True and all(env2.pc_host(dpc) is False for _, dpc, _, _ in before):
                 hit = True
@@ -334,16 +346,16 @@ def check_flag_conditioned_liveness(res, db, entry: str, allowed: set) -> int:
           name = e.ev.name or e.ev.kind
           res.ob(
             False,
-            f"{entry}|{flag}|{k}",
+            f"{entry}|{label}|{k}",
             Finding(
               "R-LIVE.6",
-              f"{entry}|{flag}|{k}|read-without-live-definition",
-              f"with {flag} set{note}, every definition of {k} that precedes its read by {name} in {entry.split('.')[-1]}() is unreachable ({', '.join(sorted({(d[3].ev.name or d[3].ev.kind) for d in before}))[:120]}) while the read stays reachable: the value read is left over from an earlier call, so the result is not a function of the integration state",
+              f"{entry}|{label}|{k}|read-without-live-definition",
+              f"with {label} set{note}, every definition of {k} that precedes its read by {name} in {entry.split('.')[-1]}() is unreachable ({', '.join(sorted({(d[3].ev.name or d[3].ev.kind) for d in before}))[:120]}) while the read stays reachable: the value read is left over from an earlier call, so the result is not a function of the integration state",
               loc,
             ),
           )
           break
       else:
         n += 1
-        res.ob(True, f"{entry}|{flag}|{k}")
+        res.ob(True, f"{entry}|{label}|{k}")
   return n
